@@ -58,6 +58,9 @@ def run_fragment(body: Sequence[ast.stmt], names: Dict[str, Any], attrs: Optiona
             if steps[0] > max_steps:
                 raise Unfoldable("step budget exhausted")
             if isinstance(st, ast.Expr):
+                c = st.value
+                if isinstance(c, ast.Call) and isinstance(c.func, ast.Attribute) and c.func.attr == "append" and isinstance(c.func.value, ast.Name) and isinstance(env.get(c.func.value.id), list) and len(c.args) == 1:
+                    env[c.func.value.id] = env[c.func.value.id] + [fold(c.args[0])]
                 continue
             if isinstance(st, ast.Pass):
                 continue
@@ -82,7 +85,7 @@ def run_fragment(body: Sequence[ast.stmt], names: Dict[str, Any], attrs: Optiona
                 env[st.target.id] = fold(ast.BinOp(left=ast.Name(id=st.target.id, ctx=ast.Load()), op=st.op, right=st.value))
             elif isinstance(st, ast.For):
                 it = st.iter
-                if not isinstance(st.target, ast.Name):
+                if not isinstance(st.target, (ast.Name, ast.Tuple, ast.List)):
                     raise Unfoldable("loop target is not a name")
                 if isinstance(it, ast.Call) and isinstance(it.func, ast.Name) and it.func.id == "range":
                     args = [fold(a) for a in it.args]
@@ -94,7 +97,7 @@ def run_fragment(body: Sequence[ast.stmt], names: Dict[str, Any], attrs: Optiona
                     if not isinstance(seq, (list, str)):
                         raise Unfoldable("loop is not over a range, a list or a string")
                 for i in seq:
-                    env[st.target.id] = i
+                    bind(st.target, i)
                     try:
                         run(st.body)
                     except _Break:
